@@ -353,6 +353,7 @@ def check(an: Analysis) -> None:
         src = None
         sh = None
         inner = None
+        paired_results = None
         if isinstance(v, (ast.List, ast.Tuple)) and len(v.elts) == 1 and isinstance(v.elts[0], ast.Starred):
             inner = unwrap(v.elts[0].value)
         elif isinstance(v, ast.Call) and an.callee(aenter, v) in ("builtins.list", "builtins.tuple") and len(v.args) == 1:
@@ -362,7 +363,10 @@ def check(an: Analysis) -> None:
             sh = comp_of(de, src)
             if sh is not None:
                 names = sh.target_names()
-                if not (len(names) == 1 and is_name(sh.elt, names[0])):
+                zsrc = as_zip(de, sh.iter)
+                if len(names) == 2 and is_name(sh.elt, names[1]) and isinstance(zsrc, ast.Call) and is_name(zsrc.func, "zip") and len(zsrc.args) == 2:
+                    paired_results = zsrc.args[1]  # (disposable, result) pairs: the result half is what is flattened
+                elif not (len(names) == 1 and is_name(sh.elt, names[0])):
                     ob.fail(aenter, r, "per-disposable results are transformed before flattening")
         else:
             vc = comp_of(de, v)
@@ -379,14 +383,14 @@ def check(an: Analysis) -> None:
                 ok, neg = is_exc_filter(sh)
                 if not (ok and neg):
                     ob.fail(aenter, r, "some successfully yielded state is filtered out")
-            src = sh.iter
+            src = paired_results if paired_results is not None else sh.iter
         # the per-disposable results may first be separated from the failures: provided = [result for ... if not isinstance(result, BaseException)]
         for _hop in range(2):
             pre = comp_of(de, src) if isinstance(unwrap(src), ast.Name) else None
             if pre is None or pre.is_dict or getattr(pre, "flatten", False):
                 break
             tn_ = pre.target_names()
-            it_ = unwrap(pre.iter)
+            it_ = as_zip(de, pre.iter)
             zipped_ = isinstance(it_, ast.Call) and is_name(it_.func, "zip") and len(it_.args) == 2 and len(tn_) == 2 and is_name(pre.elt, tn_[1])
             plain_ = len(tn_) == 1 and is_name(pre.elt, tn_[0])
             if not (zipped_ or plain_):
@@ -476,6 +480,26 @@ def _same_elements(an: Analysis, fi: FunctionInfo, d: Deps, e: ast.AST | None, p
     return False
 
 
+def as_zip(d: Deps, e: ast.AST | None, depth: int = 4) -> ast.AST | None:
+    """`e` seen through single-definition locals and list(...) / tuple(...) copies: the zip(...) call it stands for
+    (`entered = list(zip(self._disposables, await gather(...)))` iterated later), else the unwrapped expression."""
+    e = unwrap(e)
+    cur = e
+    for _ in range(depth):
+        if isinstance(cur, ast.Name):
+            sv = d.single_value(cur.id)
+            if sv is None:
+                break
+            cur = unwrap(sv)
+        elif isinstance(cur, ast.Call) and isinstance(cur.func, ast.Name) and cur.func.id in ("list", "tuple") and len(cur.args) == 1 and not cur.keywords:
+            cur = unwrap(cur.args[0])
+        else:
+            break
+    if isinstance(cur, ast.Call) and is_name(cur.func, "zip"):
+        return cur
+    return e
+
+
 def _is_entered_subset(an: Analysis, fi: FunctionInfo, d: Deps, sh: CompShape, depth: int = 3) -> bool:
     """The fan-out `sh` runs over exactly the disposables whose enter result is not an exception."""
     from ..domains import comp_of
@@ -484,7 +508,7 @@ def _is_entered_subset(an: Analysis, fi: FunctionInfo, d: Deps, sh: CompShape, d
     it = unwrap(sh.iter)
 
     def zipped(e: ast.AST | None) -> bool:
-        e = unwrap(e)
+        e = as_zip(d, e)
         return isinstance(e, ast.Call) and is_name(e.func, "zip") and len(e.args) == 2 and dotted(e.args[0]) == "self._disposables" and "call:asyncio.gather" in d.origins(e.args[1])
 
     if zipped(it) and ok_filter and neg:
@@ -539,7 +563,7 @@ def _error_collections(an: Analysis, fi: FunctionInfo, d: Deps, gather: ast.Call
                 continue
             ok, neg = is_exc_filter(sh)
             tn = sh.target_names()
-            it_ = unwrap(sh.iter)
+            it_ = as_zip(d, sh.iter)
             plain = len(tn) == 1 and is_name(sh.elt, tn[0]) and "call:asyncio.gather" in d.origins(sh.iter)
             # the same over zip(self._disposables, results): the element is the *result* of the pair
             zipped_ = isinstance(it_, ast.Call) and is_name(it_.func, "zip") and len(it_.args) == 2 and len(tn) == 2 and is_name(sh.elt, tn[1]) and "call:asyncio.gather" in d.origins(it_.args[1])
